@@ -803,6 +803,16 @@ func (g *gen) sessionEvents(n int, reverse bool) []Event {
 					l = append(l, l[0])
 				}
 				evs = append(evs, eventOf(obsSatisfies(e, l), e, l))
+			case 3:
+				// consecutive calls through ONE recycled caller buffer, overwritten in place between calls
+				for r := 0; r < 3; r++ {
+					l := []string{g.pick(texts)}
+					if g.rng.Intn(2) == 0 {
+						l = append(l, g.pick(texts))
+					}
+					e2 := g.pick(texts)
+					evs = append(evs, eventOf(obsSatisfiesReuse(e2, l), e2, l))
+				}
 			default:
 				l := []string{g.pick(texts)}
 				evs = append(evs, eventOf(obsSatisfies(e, l), e, l))
